@@ -653,7 +653,7 @@ def case_labels(case):
     m = Mirror(case)
     seen = set()
     for op in case["ops"]:
-        seen.update(m.apply(op)[1])
+        seen.update(l for l in m.apply(op)[1] if l != "rejected")
     return seen
 
 
